@@ -332,6 +332,35 @@ func extractC13(c *ctx) (Facts, error) {
 		}
 	}
 	facts["unknown_statements"] = unknowns
+	// the user-supplied filter is consulted at exactly one place of the file (it may be stateful)
+	nfilter := 0
+	ast.Inspect(f, func(x ast.Node) bool {
+		if ce, ok := x.(*ast.CallExpr); ok && strings.HasSuffix(c.src(ce.Fun), ".shouldGoToPoisonQueue") {
+			nfilter++
+		}
+		return true
+	})
+	facts["filter_consultations_in_source"] = nfilter
+	// the middleware value holds nothing but its configuration (no state shared between messages or handlers)
+	nfields := -1
+	for _, d := range f.Decls {
+		if gd, ok := d.(*ast.GenDecl); ok && gd.Tok == token.TYPE {
+			for _, sp := range gd.Specs {
+				if ts, ok := sp.(*ast.TypeSpec); ok && ts.Name.Name == "poisonQueue" {
+					if st, ok := ts.Type.(*ast.StructType); ok {
+						nfields = 0
+						for _, fl := range st.Fields.List {
+							if len(fl.Names) == 0 {
+								nfields++
+							}
+							nfields += len(fl.Names)
+						}
+					}
+				}
+			}
+		}
+	}
+	facts["poisonQueue_fields"] = nfields
 
 	// --- constructors: both refuse the empty topic with ErrInvalidPoisonQueueTopic and hand out pq.Middleware
 	for _, name := range []string{"PoisonQueue", "PoisonQueueWithFilter"} {
